@@ -276,7 +276,7 @@ PROPS["C13"] = dict(
     replay="TestReplayC13",
     rule="rapid: 2..5 instances (writer or reader, fixture tiny/flat24/nest, <= 8 records, <= 2 batches, any page size/codec), pool pollution with 0..4 junk sizes x 1..6 buffers; engine 'api': a drawn "
          "cyclic schedule picks which live instance performs its next API call (NewParquetWriter/Add/Write/Close, NewParquetReader/Next+Scan); engine 'reentrant': instances 1.. run to completion inside "
-         "instance 0's sink.Write at drawn write indices before the bytes are copied. Stage 2 (race build): rounds of 48 instances x 3 repetitions on free goroutines (GOMAXPROCS=16). Stage 3 (race build, fresh processes): the first use of every generated package in the process is made by 32 goroutines at once (cold start), outputs compared with a later sequential run. Oracle: output bytes / "
+         "instance 0's sink.Write at drawn write indices before the bytes are copied; engine 'yield': one goroutine per instance on a single P (GOMAXPROCS(1)), every sink write and every API call yields the processor. Stage 2 (race build): rounds of 48 instances x 3 repetitions on free goroutines (GOMAXPROCS=16). Stage 3 (race build, fresh processes): the first use of every generated package in the process is made by 32 goroutines at once (cold start), outputs compared with a later sequential run. Oracle: output bytes / "
          "rows+error of every instance equal its solo run; solo runs repeat identically; no race report. Non-trivial: engine api with >= 2 instances alive at once, engine reentrant with >= 1 nested history "
          "executed inside a sink write, every goroutine instance; distinct by case hash.",
 )
